@@ -22,8 +22,10 @@ from harness.trace import Run
 PROP = "C12"
 THEOREMS = ["Lbfgsb.C12.linesearch_constants_are_reference", "Lbfgsb.C12.memory_defaults_are_reference",
             "Lbfgsb.C12.theta_formula_is_reference", "Lbfgsb.C12.first_step_formula_is_reference", "Lbfgsb.C12.theta_model",
-            "Lbfgsb.C12.iter0_step_cap"]
-MODULES = ["LbfgsbVerif.Props.C12"]
+            "Lbfgsb.C12.iter0_step_cap", "Lbfgsb.C12.inv_chain_inverts_bfgs_chain", "Lbfgsb.C12.newton_point_is_two_loop",
+            "Lbfgsb.C12.newton_point_is_two_loop_nopairs", "Lbfgsb.C12.complete_iteration_is_lbfgs", "Lbfgsb.C12.state_is_lbfgs",
+            "Lbfgsb.C12.run_iteration_is_lbfgs"]
+MODULES = ["LbfgsbVerif.Props.C12", "LbfgsbVerif.Props.C12Newton", "LbfgsbVerif.Props.C12Run"]
 EPS = float(np.finfo(float).eps)
 
 
@@ -32,6 +34,47 @@ def pre_build():
     sys.path.insert(0, str(__import__("harness.common", fromlist=["VERIF"]).VERIF / "translate"))
     import defaults2lean
     defaults2lean.main()
+
+
+def two_loop(theta, S, Y, g):
+    """textbook L-BFGS two-loop recursion with H0 = I/theta; pairs = columns of S, Y, oldest first"""
+    q = np.array(g, dtype=float)
+    m = S.shape[1]
+    al = np.zeros(m)
+    for j in range(m - 1, -1, -1):
+        rho = 1.0 / float(Y[:, j] @ S[:, j])
+        al[j] = rho * float(S[:, j] @ q)
+        q = q - al[j] * Y[:, j]
+    r = q / theta
+    for j in range(m):
+        rho = 1.0 / float(Y[:, j] @ S[:, j])
+        r = r + (al[j] - rho * float(Y[:, j] @ r)) * S[:, j]
+    return r
+
+
+def quasi_newton_points(run: Run):
+    """what the theorem run_iteration_is_lbfgs says of the model, looked at on the real code: on an unconstrained problem the point
+    each iteration aims its line search at is x - twoLoop(I/theta, stored pairs)(g) (x - g/theta with an empty memory)"""
+    n, worst = 0, None
+    for k, e in enumerate(run.rec.xbar):
+        if "xbar" not in e:
+            continue
+        x, g = e["x"], e["g"]
+        if e["use_factor"]:
+            S, Y = np.atleast_2d(e["S"]), np.atleast_2d(e["Y"])
+            if not (np.einsum("ij,ij->j", S, Y) > 0).all():
+                continue
+            d = two_loop(e["theta"], S, Y, g)
+            cs = min(float(S[:, j] @ Y[:, j]) / (np.linalg.norm(S[:, j]) * np.linalg.norm(Y[:, j]) + 1e-300) for j in range(S.shape[1]))
+        else:
+            d, cs = g / e["theta"], 1.0
+        want = x - d
+        sc = max(1.0, float(np.abs(want).max()), float(np.abs(x).max()))
+        err = float(np.abs(np.asarray(e["xbar"], dtype=float) - want).max()) / sc
+        n += 1
+        if err * max(cs, 1e-12) > 1e-9 and worst is None:
+            worst = {"iteration": k, "rel_err": err, "min_cos_s_y": cs, "pairs": int(S.shape[1]) if e["use_factor"] else 0}
+    return n, worst
 
 
 def scipy_points(p, x0, bounds, maxcor, maxiter, gtol):
@@ -94,6 +137,12 @@ def evaluate(case: Dict[str, Any]) -> Dict[str, Any]:
         P = port_points(run, p.n)
         Q, sres = scipy_points(p, kw["x0"], None, kw["maxcor"], kw["maxiter"], kw["gtol"])
         h, why = deviation_horizon(run)
+        # a trial point is x + step * d: a difference between the two implementations' x and d (rounding: they compute the same direction
+        # by different formulas) is multiplied by the step, which extrapolation makes as large as 341
+        amp = [1.0]
+        for e_ in run.rec.ls:
+            amp += [max(1.0, float(c_["out"][0])) for c_ in e_["dc"] if c_["out"][1][:2] == b"FG"]
+        amp = list(np.maximum.accumulate(amp))      # (an accepted long step carries its error into every later point)
         out["tags"].append(f"deviation={why or 'none'}")
         m = min(h, len(P), len(Q))
         ncmp = 0
@@ -107,7 +156,7 @@ def evaluate(case: Dict[str, Any]) -> Dict[str, Any]:
                 out["tags"].append("entered_roundoff_regime")
                 break
             fprev = fa
-            if not float(np.abs(a - b).max()) <= 1e-6 * sc:
+            if not float(np.abs(a - b).max()) <= 1e-6 * sc * (amp[j] if j < len(amp) else 1.0):
                 out["prop"].append({"what": f"evaluation point #{j} differs from the reference implementation (SciPy L-BFGS-B, maxcor={kw['maxcor']}) "
                                             f"before any documented deviation is triggered", "key": "",
                                     "detail": {"index": j, "max_abs_diff": float(np.abs(a - b).max()), "horizon": h, "deviation_after": why,
@@ -118,6 +167,11 @@ def evaluate(case: Dict[str, Any]) -> Dict[str, Any]:
             if why is None and len(P) != len(Q) and min(len(P), len(Q)) == m and r.nit < kw["maxiter"] and False:
                 pass
         out["tags"].append(f"points_compared<={5 * ((ncmp + 4) // 5)}")
+        nq, wq = quasi_newton_points(run)
+        out["tags"].append(f"quasi_newton_points_checked<={5 * ((nq + 4) // 5)}")
+        if wq is not None:
+            out["prop"].append({"what": "on an unconstrained problem the point an iteration aims its line search at is not the L-BFGS quasi-Newton "
+                                        "point x - H g of the stored pairs (two-loop recursion from I/theta)", "key": "", "detail": wq})
         if ncmp >= 6:
             out["nontrivial"] = f"{case['seed']}:{kw['maxcor']}"
         if case["seed"] % 41 == 0:
@@ -155,7 +209,7 @@ def run(tier: str, seed: int) -> int:
     for i in range(nseq):
         s = seed * 1_000_003 + i
         r = random.Random(s)
-        fam = r.choice([["qp_quartic"], ["qp_softplus"], ["rosen"]])
+        fam = r.choice([["qp_quartic"], ["qp_softplus"], ["rosen"], ["smooth_l1"]])
         cases.append({"seed": s, "kind": "seq", "families": fam, "box": "none", "small_budgets": False,
                       "n": r.randint(2, 8) if fam == ["rosen"] else None,
                       # (a tenth of the objectives run a nested optimisation of their own at every call: the reference implementation
@@ -172,9 +226,10 @@ def run(tier: str, seed: int) -> int:
     return run_property(
         PROP, "harness.props.c12", THEOREMS, MODULES, cases, tier, seed, pre_build=pre_build,
         rule="evaluation-point sequences of the first 12 iterations against scipy.optimize.minimize(method='L-BFGS-B') with the same maxcor "
-             "(1..8) on unconstrained QP+quartic / QP+softplus / Rosenbrock, compared (1e-6 relative) up to the first line search that triggers a "
+             "(1..8) on unconstrained QP+quartic / QP+softplus / QP+smoothed-l1 (sharp valleys) / Rosenbrock, compared (1e-6 relative) up to the first line search that triggers a "
              "documented deviation or to the round-off regime; optimal values on the convex box problems of C01; the port's run replayed "
-             "through the Lean driver model; non-trivial = at least 6 points compared",
+             "through the Lean driver model; on every iteration of the unconstrained runs the point handed to the line search is compared with a textbook "
+             "two-loop recursion on the stored pairs (1e-9 / min cos(s, y)); non-trivial = at least 6 points compared",
         assumptions=["SciPy's L-BFGS-B (a translation of L-BFGS-B 3.0) is the reference Algorithm 778"])
 
 
